@@ -31,7 +31,7 @@ func (c tcall) String() string {
 	switch c.Op {
 	case "Abort", "Commit":
 		return c.Op
-	case "Get", "Set":
+	case "Get", "Set", "Del":
 		return c.Op + "(" + c.Key + ")"
 	}
 	return c.Op + "(" + c.Key + "," + c.H + ")"
@@ -78,6 +78,15 @@ func c18lists() {
 			}
 		}
 		rec(nil, 3)
+		// keys in a parent/child relation and deletions (Set with a nil record): every key is its own
+		syms = nil
+		for _, k := range []string{"x", "x/c"} {
+			syms = append(syms, tcall{Op: "Get", Key: k}, tcall{Op: "Set", Key: k}, tcall{Op: "Del", Key: k})
+		}
+		syms = append(syms, tcall{Op: "Commit"})
+		rec(nil, 3)
+		c18enum = append(c18enum, normSeq([]tcall{{Op: "Set", Key: "x/c"}, {Op: "Set", Key: "x"}, {Op: "Del", Key: "x"}, {Op: "Get", Key: "x/c"}}),
+			normSeq([]tcall{{Op: "Set", Key: "x/c"}, {Op: "Del", Key: "x/c"}, {Op: "Get", Key: "x"}, {Op: "Get", Key: "x/c"}}))
 	})
 }
 
@@ -167,16 +176,30 @@ func c18seqs(env *core.Env, idx int) [][]tcall {
 type c18impl struct {
 	name string
 	open func() (keyvalue.Store, func(keyvalue.TransactionOptions) (keyvalue.Transaction, error))
+	// failSet: the store refuses every Set of this key (a quota, a read-only prefix); everything else works
+	failSet string
 }
 
 func c18impls() []c18impl {
 	return []c18impl{
-		{"mem", func() (keyvalue.Store, func(keyvalue.TransactionOptions) (keyvalue.Transaction, error)) {
+		{name: "mem", open: func() (keyvalue.Store, func(keyvalue.TransactionOptions) (keyvalue.Transaction, error)) {
 			s := mem.NewStoreVerif()
 			return s, s.Transaction
 		}},
-		{"serial", func() (keyvalue.Store, func(keyvalue.TransactionOptions) (keyvalue.Transaction, error)) {
+		{name: "serial", open: func() (keyvalue.Store, func(keyvalue.TransactionOptions) (keyvalue.Transaction, error)) {
 			s := kvs.NewPlain()
+			return s, func(o keyvalue.TransactionOptions) (keyvalue.Transaction, error) {
+				return keyvalue.TransactionOrSerial(s, o)
+			}
+		}},
+		{name: "serial-failing-set", failSet: "y", open: func() (keyvalue.Store, func(keyvalue.TransactionOptions) (keyvalue.Transaction, error)) {
+			s := kvs.NewPlain()
+			s.Hook = func(ev kvs.Event) error {
+				if ev.Op == "Set" && ev.Path == "y" {
+					return errStoreFault
+				}
+				return nil
+			}
 			return s, func(o keyvalue.TransactionOptions) (keyvalue.Transaction, error) {
 				return keyvalue.TransactionOrSerial(s, o)
 			}
@@ -204,6 +227,8 @@ func errClass18(err error) string {
 	switch {
 	case err == nil:
 		return "nil"
+	case errors.Is(err, errStoreFault):
+		return "store"
 	case errors.Is(err, errHandler):
 		return "handler"
 	case errors.Is(err, context.Canceled):
@@ -213,6 +238,8 @@ func errClass18(err error) string {
 	}
 	return "other"
 }
+
+var errStoreFault = errors.New("injected store write failure")
 
 type c18exp struct {
 	err string
@@ -324,7 +351,11 @@ func c18exec(seq []tcall, impl c18impl, seqNo int, res *core.CaseResult, verbose
 			if aborted {
 				e.err = "canceled"
 			} else {
-				model[c.Key] = val
+				if impl.failSet != "" && impl.failSet == c.Key {
+					e.err = "store" // the store's own error wins over the handler's; nothing is stored
+				} else {
+					model[c.Key] = val
+				}
 				if c.Op == "SetH" {
 					applyHandler(&e, c.H)
 				}
@@ -336,6 +367,15 @@ func c18exec(seq []tcall, impl c18impl, seqNo int, res *core.CaseResult, verbose
 					ids = append(ids, txn.SetHandler(c.Key, recordOf(val), blob.NewBytes([]byte(val)), mkHandler(c.H, nil)))
 				}
 			})
+			exps = append(exps, e)
+		case "Del":
+			e := c18exp{err: "nil"}
+			if aborted {
+				e.err = "canceled"
+			} else {
+				delete(model, c.Key) // a delete concerns exactly its key
+			}
+			panicked = core.Recover(func() { ids = append(ids, txn.Set(c.Key, nil, nil)) })
 			exps = append(exps, e)
 		case "Abort":
 			panicked = core.Recover(func() { _ = txn.Abort() })
@@ -419,7 +459,7 @@ func c18exec(seq []tcall, impl c18impl, seqNo int, res *core.CaseResult, verbose
 	// the store must remain usable and hold what the model holds
 	var finalRes []keyvalue.OpResult
 	var finalErr error
-	keys := []string{"x", "y", "z"}
+	keys := []string{"x", "y", "z", "x/c"}
 	var p string
 	hung, confirmed := withWatchdog(func() {
 		p = core.Recover(func() {
